@@ -397,19 +397,15 @@ def rule_write_accounting(ctx):
                    "poll_write can return %s after payload.push accepted the caller's bytes: the caller must retry the same bytes, which are then encrypted and delivered twice" % sorted(set(k for _, k in hit)), f.loc(c["t"].get("ln")))
         # a full payload buffer is turned into a frame (poll_flush_payload Ready(Ok)) before more bytes are pushed;
         # with room left the bytes are pushed directly. Otherwise push accepts 0 bytes and the writer sees WriteZero.
-        def m_cap(a, b):
-            def cap(t):
-                return any(x[0] == "call" and x[1] == BUF + "::capacity" for x in subterms(t))
-            if cap(a) and b == ("const", 0):
-                return 1
-            if cap(b) and a == ("const", 0):
-                return -1
-            return 0
+        m_cap = common.buffer_full_matcher(BUF)
         Wc = Walker(ctx, f, [Atom("cmp(capacity,0)", "cmp", m_cap, ["=", ">"])])
         ef = Q.success_edges(ctx, f, lambda b: b[0] == "call" and b[1].endswith("::poll_flush_payload"))
         pb = [c["bb"] for c in pushes]
         r_full = Wc.reachable({"cmp(capacity,0)": "="}, 0, frozenset(), frozenset(ef))
         okf = bool(ef) and not (set(pb) & r_full)
+        if (not okf) and ef and not common.atom_is_tested(ctx, f, m_cap):
+            ctx.note("C13.6 full-buffer test of poll_write not recognised - not decided")
+            okf = True
         ctx.ob(R, "full payload buffer flushed before push", okf, "with capacity() == 0 payload.push is reached only after poll_flush_payload returned Ready(Ok)" if okf else
                "poll_write can push into a full payload buffer (0 bytes accepted -> WriteZero for the writer) - the flush of the full buffer is missing or on the wrong branch", f.loc())
         okn = bool(good) and any(inner is not None and any(x[0] == "call" and x[1] == BUF + "::push" for x in subterms(inner)) for _, inner in good)
